@@ -112,7 +112,7 @@ META["C04"] = {
     "category": "proof",
     "design_ref": "DESIGN.md section 5 / C04 and section 9.5",
     "technique": "Lean 4: 'written only after Owns said yes' (monitor ownMon) proved for the Add, Remove, Like and Announce side effects over every application by a frame argument on the call alphabet plus loop induction; 'an other-callback replaces the default entirely' proved as 'the post-dispatch program makes the otherCb call and nothing else'; 'the wrapped callback runs only after the default effect succeeded, once, and last' proved for the default callback of every handled type (monitor cbOrderMon; judgement Fw discharged per function by a rule-applying tactic; trace-level meaning proved); trace replay of the real code, the same monitors over its traces, and value oracles for Follow (none/accept/reject), Accept, Like and Announce",
-    "text": "Ownership, replacement and callback-order clauses: theorems for all inputs and all answers of the application (every fault pattern). Value level, also for every application: what Add / Remove / Like / Announce hand to Update is the value Get returned with exactly the object ids appended / the matching elements removed / the activity id prepended to likes or shares (addLoop_writes, removeLoop_writes, likeLoop_writes, bumpCollection_spec); what the automatic Accept of a Follow, an Accept of our Follow and a client's Like hand to Update is the collection Followers / Following / Liked returned with the ids put in front one by one (followUpdateFollowers_writes, acceptUpdateFollowing_writes, likedSection_writes). The remaining value-level clauses (what exactly is stored for Create/Update/Delete, the content of the automatic Accept/Reject) are decided per run by replay agreement and independent oracles over the real code's traces, not theorems.",
+    "text": "Ownership, replacement and callback-order clauses: theorems for all inputs and all answers of the application (every fault pattern). Value level, also for every application: what Add / Remove / Like / Announce hand to Update is the value Get returned with exactly the object ids appended / the matching elements removed / the activity id prepended to likes or shares (addLoop_writes, removeLoop_writes, likeLoop_writes, bumpCollection_spec); what the automatic Accept of a Follow, an Accept of our Follow and a client's Like hand to Update is the collection Followers / Following / Liked returned with the ids put in front one by one (followUpdateFollowers_writes, acceptUpdateFollowing_writes, likedSection_writes); every value a federated Create hands to Database.Create is an embedded object of the activity or a document the transport returned before, and nothing is updated or deleted (fedCreate_writes). The remaining value-level clauses (what exactly is stored for Create/Update/Delete, the content of the automatic Accept/Reject) are decided per run by replay agreement and independent oracles over the real code's traces, not theorems.",
     "note": "Trusted: Lean kernel, transcription (replay-validated), fakes. In the callback-order monitor a failing Unlock and an unreachable document (Dereference) are not failures of the default effect: the library ignores the former and may skip the latter.",
 }
 
